@@ -46,7 +46,15 @@ def main():
     assert rc == 0, out
     try:
         rc, out = run(["git", "-C", wt, "apply", os.path.join(src, "patch.diff")])
-        meta["ran"].append({"cmd": "git apply patch.diff (scratch worktree of /repo HEAD)", "rc": rc})
+        rebased = None
+        if rc != 0:
+            # written against an earlier HEAD: 3-way merge onto the current one and re-diff
+            rc, out = run(["git", "-C", wt, "apply", "--3way", os.path.join(src, "patch.diff")])
+            if rc == 0:
+                run(["git", "-C", wt, "reset", "-q"])
+                _, rebased = run(["git", "-C", wt, "diff"])
+        meta["ran"].append({"cmd": "git apply patch.diff (scratch worktree of /repo HEAD)" +
+                            (" [3-way rebased]" if rebased else ""), "rc": rc})
         if rc != 0:
             print("PATCH DOES NOT APPLY", out)
             return 1
@@ -85,6 +93,10 @@ def main():
         os.makedirs(dst, exist_ok=True)
         for f in ("patch.diff", "demo.py", "notes.md"):
             shutil.copy(os.path.join(src, f), os.path.join(dst, f))
+        if rebased:
+            shutil.copy(os.path.join(src, "patch.diff"), os.path.join(dst, "patch.orig.diff"))
+            with open(os.path.join(dst, "patch.diff"), "w") as f:
+                f.write(rebased)
         if not meta["needs_to_manifest"]:
             with open(os.path.join(src, "notes.md")) as f:
                 meta["needs_to_manifest"] = "see notes.md: " + f.read()[:600]
